@@ -232,7 +232,7 @@ def tcpto_seam_records(ck, tree, thorough):
         else:
             lines.append("E %s %d %d %d %d" % (h, rng.choice([0, 1]), rng.choice([1, 2, 3, 4]), rng.choice([0, 1]), rng.choice([1000, 1100, 1119, 1120, 1300, 3000])))
     # the real table size (64 slots): long sequences of attempts (lookup, then report) with an advancing clock and 70 addresses
-    for s_ in range(12 if thorough else 3):
+    for s_ in range(5 if thorough else 3):
         lines.append("E %s 0 1 0 1000" % tab_hex([(0, 0, 0)] * 64))
         nw = 1000
         for _ in range(1500):
@@ -524,7 +524,7 @@ def main():
         allt = trecs + [{k: v for k, v in r.items() if k != "out"} for r in brecs]
         tfile = ck.scratch.path("tcpto.ndjson")
         write_ndjson(tfile, allt)
-        tbad, tres = tlc_validate_records("TcptoRec", "TcptoRec.cfg", tfile, len(allt), chunk=500)
+        tbad, tres = tlc_validate_records("TcptoRec", "TcptoRec.cfg", tfile, len(allt), chunk=500, timeout=3000, heap="12g")
         ck.add_tlc("TcptoRec", tres)
         ck.cov["traces_validated_against_impl"] += len(allt)
         for r in allt:
